@@ -223,9 +223,14 @@ package webdoc
 //@   fresh_assigns webdoc.Text.*, webdoc.BaseElement.*, webdoc.TextBlock.*
 //@   ensures result != nil && inheap(result) && result == tb.TextElements[0].TextNodes[tb.TextElements[0].LastWordNode]
 
+// C15: a content block labelled as the title hands the title label to every one of its text elements
+// (Text.GenerateOutput renders a text element with that label as empty).
 //@ func (*TextBlock).ApplyToModel()
 //@   requires tb != nil && inheap(tb.TextElements) && forall(j, 0 <= j && j < len(tb.TextElements), tb.TextElements[j] != nil)
+//@   ensures [C15] #title-label-propagates implies(old(tb.isContent) && old(inmap(tb.Labels, label.Title)), forall(j, 0 <= j && j < len(tb.TextElements), inmap(tb.TextElements[j].Labels, label.Title)))
 //@   loop 0 invariant tb != nil && inheap(tb.TextElements) && forall(j, 0 <= j && j < len(tb.TextElements), tb.TextElements[j] != nil)
+//@   loop 0 invariant tb.TextElements == old(tb.TextElements) && tb.Labels == old(tb.Labels) && inmap(tb.Labels, label.Title) == old(inmap(tb.Labels, label.Title))
+//@   loop 0 invariant implies(old(inmap(tb.Labels, label.Title)), forall(j, 0 <= j && j < ITER, inmap(tb.TextElements[j].Labels, label.Title)))
 
 // ---- renderers (C05): what is serialised is a clone whose attributes were stripped ----
 
